@@ -324,10 +324,19 @@ func MapRange[M ~map[K]V, K comparable, V any](m M) iter.Seq2[K, V] {
 			}
 		}
 		keys = permute(keys, rot)
+		logYield := MapYieldKind != 0
+		if logYield {
+			Log(MapYieldKind, -1, int64(len(keys)), 0) // start of one range statement
+		}
 		for _, k := range keys {
 			v, ok := m[k]
 			if !ok {
 				continue
+			}
+			if logYield {
+				if u, isU := any(k).(uint64); isU {
+					Log(MapYieldKind, int64(u), 0, 1)
+				}
 			}
 			if !yield(k, v) {
 				return
@@ -335,6 +344,11 @@ func MapRange[M ~map[K]V, K comparable, V any](m M) iter.Seq2[K, V] {
 		}
 	}
 }
+
+// MapYieldKind, when non-zero, makes MapRange log (as events of this kind) the start of every
+// range statement (A = -1, B = number of keys) and every uint64 key it hands to the loop body
+// (A = key, C = 1): the oracle of C09 reconstructs the eviction sample from it.
+var MapYieldKind uint8
 
 // permute returns the rot-th order of keys: for rot < len it is the rotation by rot; beyond
 // that, the (rot-len)-th permutation in lexicographic order of indices (used when the policy
